@@ -41,6 +41,33 @@ pub fn gen(tier: &str, r: &mut Rng) -> Vec<String> {
         let cut = (2 * r.range(0, 400) + 1) * U / 2;
         out.push(format!("c14 contacts {} {}", cut, s.line()));
         if i % 5 == 0 { out.push(format!("c14 contacts {} {}", *r.pick(&[0i64, -8 * U]), s.line())); }
+        // two chains that touch in exactly one place: an atom of one chain is put k/8 A next to an atom of another chain
+        // (often one far from that chain's centre), the cut-off half a step above that distance - a shortcut that judges
+        // chains by a box or a sphere around them must not lose the pair
+        {
+            let mut s2 = s.clone();
+            if let Some(m) = s2.models.first_mut() {
+                let idx: Vec<usize> = (0..m.chains.len()).filter(|&c| m.chains[c].residues.iter().any(|x| x.confs.iter().any(|f| !f.atoms.is_empty()))).collect();
+                if idx.len() >= 2 {
+                    let (ca, cb) = (idx[0], idx[idx.len() - 1]);
+                    let atoms_a: Vec<(i64, i64, i64)> = m.chains[ca].residues.iter().flat_map(|x| x.confs.iter()).flat_map(|f| f.atoms.iter()).map(|a| (a.x, a.y, a.z)).collect();
+                    // the atom of A farthest from A's centre
+                    let n = atoms_a.len() as i64;
+                    let cen = (atoms_a.iter().map(|p| p.0).sum::<i64>() / n, atoms_a.iter().map(|p| p.1).sum::<i64>() / n, atoms_a.iter().map(|p| p.2).sum::<i64>() / n);
+                    let far = *atoms_a.iter().max_by_key(|p| (p.0 - cen.0).abs().max((p.1 - cen.1).abs()).max((p.2 - cen.2).abs())).unwrap();
+                    let k = 1 + r.below(24) as i64;
+                    let axis = r.below(3);
+                    let sign = if r.chance(1, 2) { 1 } else { -1 };
+                    if let Some(b0) = m.chains[cb].residues.iter_mut().flat_map(|x| x.confs.iter_mut()).flat_map(|f| f.atoms.iter_mut()).next() {
+                        b0.x = far.0 + if axis == 0 { sign * k * U } else { 0 };
+                        b0.y = far.1 + if axis == 1 { sign * k * U } else { 0 };
+                        b0.z = far.2 + if axis == 2 { sign * k * U } else { 0 };
+                    }
+                    let s2 = realise(&s2).1;
+                    out.push(format!("c14 contacts {} {}", (2 * k + 1) * U / 2, s2.line()));
+                }
+            }
+        }
         // R*-tree clause: decided by the tie alone
         let q: Vec<String> = (0..budget(tier, 8, 40)).map(|_| format!("{} {} {} {}", r.range(-220, 220) * U, r.range(-220, 220) * U, r.range(-220, 220) * U, (2 * r.range(0, 300) + 1) * U / 2)).collect();
         // queries right next to an atom with radii below and around one ångström (a bound that mixes up a distance
